@@ -261,6 +261,9 @@ func init() {
 					if loc := str(oc, "location"); loc != "" {
 						hdr.Set("Location", loc)
 					}
+					if l := str(oc, "link"); l != "" {
+						hdr.Set("Link", l)
+					}
 					resp := &http.Response{StatusCode: num(oc, "status", 200), Header: hdr, Body: cr, Request: it.GetURL().GetRequest()}
 					it.GetURL().SetResponse(resp)
 					err := archiver.ProcessBody(it.GetURL(), cfg.DisableAssetsCapture, domainscrawl.Enabled(), cfg.MaxHops, os.TempDir())
